@@ -281,7 +281,7 @@ func c25(c *engine.Ctx) {
 	c.Floor("C25.R3", 4, n3)
 
 	// ---- R4 ack channel bookkeeping
-	c25R4(c)
+	c25R4(c, "C25.R4")
 
 	// ---- R5 timer interval; handler cancels the retry context
 	n5 := 0
@@ -337,16 +337,16 @@ func allocOfType(v ssa.Value, name string) bool {
 	return found
 }
 
-func c25R4(c *engine.Ctx) {
+func c25R4(c *engine.Ctx, R string) {
 	n := 0
-	if wa := c.MustFunc("C25.R4", "rpc", "Engine.waitAck"); wa != nil {
+	if wa := c.MustFunc(R, "rpc", "Engine.waitAck"); wa != nil {
 		ls := engine.Locksets(wa)
 		ups := mapUpdatesOf(wa, "p:e.ack")
 		for _, mu := range ups {
 			n++
 			_, isMk := engine.Unwrap(mu.Value).(*ssa.MakeChan)
-			c.Check(engine.Describe(mu.Key) == "p:id" && isMk, "C25.R4", "waitAck/registers-new-chan-under-id", mu.Pos(), "waitAck must register a fresh channel under its id")
-			c.Check(heldAt(ls, mu, "p:e.mux"), "C25.R4", "waitAck/lock", mu.Pos(), "e.ack must be written under e.mux")
+			c.Check(engine.Describe(mu.Key) == "p:id" && isMk, R, "waitAck/registers-new-chan-under-id", mu.Pos(), "waitAck must register a fresh channel under its id")
+			c.Check(heldAt(ls, mu, "p:e.mux"), R, "waitAck/lock", mu.Pos(), "e.ack must be written under e.mux")
 			// the return on this path returns the registered channel
 			okRet := false
 			for _, r := range engine.Returns(wa) {
@@ -354,15 +354,15 @@ func c25R4(c *engine.Ctx) {
 					okRet = true
 				}
 			}
-			c.Check(okRet, "C25.R4", "waitAck/returns-registered", mu.Pos(), "waitAck must return the channel it registered")
+			c.Check(okRet, R, "waitAck/returns-registered", mu.Pos(), "waitAck must return the channel it registered")
 		}
-		c.Check(len(ups) == 1, "C25.R4", "waitAck/one-registration", wa.Pos(), "exactly one registration expected")
+		c.Check(len(ups) == 1, R, "waitAck/one-registration", wa.Pos(), "exactly one registration expected")
 		// the already-registered path returns the found channel
 		for _, lk := range lookupsOf(wa, "p:e.ack") {
-			c.Check(engine.Describe(lk.Index) == "p:id" && heldAt(ls, lk, "p:e.mux"), "C25.R4", "waitAck/lookup", lk.Pos(), "lookup by id under e.mux")
+			c.Check(engine.Describe(lk.Index) == "p:id" && heldAt(ls, lk, "p:e.mux"), R, "waitAck/lookup", lk.Pos(), "lookup by id under e.mux")
 		}
 	}
-	if na := c.MustFunc("C25.R4", "rpc", "Engine.NotifyAcks"); na != nil {
+	if na := c.MustFunc(R, "rpc", "Engine.NotifyAcks"); na != nil {
 		ls := engine.Locksets(na)
 		var closeCall ssa.CallInstruction
 		for _, call := range engine.Calls(na) {
@@ -372,14 +372,14 @@ func c25R4(c *engine.Ctx) {
 		}
 		lks := lookupsOf(na, "p:e.ack")
 		if closeCall == nil || len(lks) != 1 {
-			c.Fail("C25.R4", "NotifyAcks/close", na.Pos(), "NotifyAcks must close the channel found in e.ack (close calls found: %v, lookups: %d)", closeCall != nil, len(lks))
+			c.Fail(R, "NotifyAcks/close", na.Pos(), "NotifyAcks must close the channel found in e.ack (close calls found: %v, lookups: %d)", closeCall != nil, len(lks))
 		} else {
 			n++
 			lk := lks[0]
-			c.Check(engine.DependsOn(closeCall.Common().Args[0], lk) && heldAt(ls, closeCall, "p:e.mux"), "C25.R4", "NotifyAcks/closes-found-chan", closeCall.Pos(), "the closed channel must be the one found under the id, under e.mux")
+			c.Check(engine.DependsOn(closeCall.Common().Args[0], lk) && heldAt(ls, closeCall, "p:e.mux"), R, "NotifyAcks/closes-found-chan", closeCall.Pos(), "the closed channel must be the one found under the id, under e.mux")
 			// the lookup index is the range element of the ids parameter
 			idx := engine.Describe(lk.Index)
-			c.Check(strings.Contains(idx, "p:ids"), "C25.R4", "NotifyAcks/key-from-ids", lk.Pos(), "the id looked up must be an element of the ids parameter (is %s)", idx)
+			c.Check(strings.Contains(idx, "p:ids"), R, "NotifyAcks/key-from-ids", lk.Pos(), "the id looked up must be an element of the ids parameter (is %s)", idx)
 			// deletion of the same key
 			del := false
 			for _, call := range engine.Calls(na) {
@@ -387,7 +387,7 @@ func c25R4(c *engine.Ctx) {
 					del = true
 				}
 			}
-			c.Check(del, "C25.R4", "NotifyAcks/deletes-closed", closeCall.Pos(), "a closed channel must be removed from e.ack (double close otherwise)")
+			c.Check(del, R, "NotifyAcks/deletes-closed", closeCall.Pos(), "a closed channel must be removed from e.ack (double close otherwise)")
 			// every id of the batch is visited: no return / loop exit reachable from the miss edge other than through the loop head
 			n++
 			whole := true
@@ -401,15 +401,15 @@ func c25R4(c *engine.Ctx) {
 					}
 				}
 			}
-			c.Check(whole, "C25.R4", "NotifyAcks/visits-every-id", lk.Pos(), "an id without a waiter must not end the processing of the batch (later ids would never be acknowledged)")
+			c.Check(whole, R, "NotifyAcks/visits-every-id", lk.Pos(), "an id without a waiter must not end the processing of the batch (later ids would never be acknowledged)")
 		}
 	}
 	if ru := c.Func("rpc", "Engine.retryUntilAck"); ru != nil {
 		for _, call := range engine.CallsTo(ru, false, "(*rpc.Engine).removeAck") {
 			n++
 			_, isDefer := call.(*ssa.Defer)
-			c.Check(isDefer && engine.Describe(call.Common().Args[1]) == "p:req.MsgID", "C25.R4", "retryUntilAck/removes-ack", call.Pos(), "the ack registration must be removed (deferred) under the same id")
+			c.Check(isDefer && engine.Describe(call.Common().Args[1]) == "p:req.MsgID", R, "retryUntilAck/removes-ack", call.Pos(), "the ack registration must be removed (deferred) under the same id")
 		}
 	}
-	c.Floor("C25.R4", 4, n)
+	c.Floor(R, 4, n)
 }
